@@ -404,12 +404,13 @@ PROPS["C06"] = {
 }
 
 PROPS["C12"] = {
-    "lean": ["TinkVerif.Props.C12", "TinkVerif.Props.C12Tables"],
+    "lean": ["TinkVerif.Props.C12", "TinkVerif.Props.C12TableDefs", "TinkVerif.Props.C12Tables"],
     "theorems": ["TinkVerif.Wire.decVarint_enc", "TinkVerif.Wire.decVarint_canon", "TinkVerif.Wire.decField_enc",
                  "TinkVerif.Wire.decode_encode", "TinkVerif.Wire.encode_decode", "TinkVerif.Keyset.handleOf_toKeyset"] +
                 T("TinkVerif.Gen.EnumTables", "enum_tables_round_trip enum_tables_injective exception_is_one_cell enum_tables_parser_range "
                   "every_serializer_table_paired prefix_tables_follow_convention coverage"),
     "harness": [{"name": "c12", "timeout": 3000}],
+    "reports": ["Reports/C12.lean"],
     "rule": "for every registered key type × the grid of valid parameter combinations reachable through the public NewParameters "
             "constructors × variants × ids {0, 2^32-1, random} × fresh key material: SerializeKey → ParseKey is Equal and re-serialises "
             "byte-identically; the serialised key value and key template are decoded by the Lean strict wire decoder and re-encoded "
@@ -487,6 +488,43 @@ PROPS["C20"] = {
         "design_ref": "DESIGN.md §5.20",
         "note": "Trusted: Lean kernel; H_rand for the OS source; stdlib-internal DRBG (ML-KEM) only screened for repetition.",
         "technique": "Lean 4 proof (tape-consumption model: windows, disjointness, layouts, key-id redraw) + Go/Lean correspondence under a recording crypto/rand tape",
+    },
+}
+
+PROPS["C19"] = {
+    "lean": ["TinkVerif.Props.C19", "TinkVerif.Props.C19Class", "TinkVerif.Props.C19Facts"],
+    "theorems": T("TinkVerif.Heap", "clone_frame concat_frame concat_read append_in_place_iff append_realloc_frame "
+                  "append_spare_capacity_written append_read mutate_ownedContents mutations_ownedContents clean_caller_view "
+                  "clean_guard_regions clean_result_mutation_harmless clean_result_not_owned cloningCtor_clean "
+                  "retainingCtor_not_clean appendingOp_not_clean") +
+                T("TinkVerif.Gen.SliceFacts", "facts_classified scan_coverage"),
+    "harness": [{"name": "c19", "timeout": 3000}],
+    "reports": ["Reports/C19.lean"],
+    "rule": "guard-region differential: every operation that takes or returns bytes (primitive calls of every key type and variant incl. "
+            "legacy key-manager adapters via stub key managers; subtle constructors; key / parameter constructors and accessors; secretdata; "
+            "keyset read / write; proto keysets in and out) is run with every input placed inside a larger buffer with canaries before off, "
+            "after len and through cap; afterwards all canaries and the input bytes are compared; then inputs and every returned slice are "
+            "overwritten and the operation, Equal against a pristine copy, and primitives built before and after are repeated and must "
+            "give the same results; Go's append/copy/Concat semantics are compared with the heap model; non-trivial = every line, "
+            "distinct by line hash",
+    "trusted_base": [KERNEL, TIE, "the regenerated slice facts come from a syntactic extractor (go/ast + go/types) over all non-test "
+                     "packages: it sees direct uses of []byte parameters and their plain re-slices, not flows through other variables, "
+                     "struct fields or calls; the dynamic guard-region harness is the evidence for those",
+                     "unsafe / assembly paths inside the Go standard library are out of scope"],
+    "assumptions": ["the Lean theorems are about the slice model and the contract (what a violation looks like and why a contract-"
+                    "respecting library is immune to caller mutations); that the code respects the contract is established by the "
+                    "regenerated facts and the differential harness, not proved"],
+    "manifest": {
+        "text": "Partial. Theorems (heap model of Go slices): Clone/Concat never write an existing array; append writes the argument's "
+                "array iff the result fits its capacity, and then exactly the spare bytes after len (the defect shape); in both cases the "
+                "value is the concatenation (why tests cannot see it); caller mutations of any caller-visible array never change library-"
+                "owned state when every operation is Clean; a cloning constructor is Clean, a retaining constructor and an appending "
+                "operation are not. REGENERATED on every run: all uses of []byte parameters as append/copy/store/writer destinations, "
+                "retention into structs, returns of receiver fields — each classified in Lean, `facts_classified` decided by the kernel. "
+                "Tie: guard-region differential harness over the public API.",
+        "design_ref": "DESIGN.md §5.19",
+        "note": "Trusted: Lean kernel; syntactic extractor; dynamic harness for flows the extractor cannot see.",
+        "technique": "Lean 4 proof (slice/heap model, non-interference under the Clean contract; regenerated slice facts decided in the kernel) + guard-region differential harness",
     },
 }
 
